@@ -622,6 +622,14 @@ where
                 "Range statements and proofs length mismatch".to_string(),
             ));
         }
+        if statements
+            .iter()
+            .any(|statement| statement.minimum_value_promises.len() != statement.commitments.len())
+        {
+            return Err(ProofError::InvalidArgument(
+                "Incorrect number of minimum value promises".to_string(),
+            ));
+        }
 
         let g_base_vec = first_statement.generators.g_bases();
         let h_base = first_statement.generators.h_base();
